@@ -35,6 +35,7 @@ func init() {
 			{ID: "C06.R13", Text: "what is persisted is the document Save built: the backends marshal the document they are given under the id of the same vBucket and keep nothing from an earlier file or another encoding (same rule as C01.R6)", Run: c01r6},
 			{ID: "C06.R14", Text: "no offset is handed on for an event that did not pass the snapshot test of its own handler: every event wrapper is built by the stream-observer handler of its own kind from the event it received (same rule as C03.R4)", Run: c03r4},
 			{ID: "C06.R15", Text: "a loaded checkpoint is the one stored for that vBucket: the file backend returns the decoded file under the keys it was written with (no re-keying by position), an empty document per requested vBucket when there is no file (same rule as C02.R15)", Run: fileLoadExact},
+			{ID: "C06.R16", Text: "a server event outside its announced snapshot stops the client: the module never recovers a panic (same rule as C15.R23)", Run: neverRecovers},
 			{ID: "C06.R5", Text: "the persisted document is built field by field from one offset (same rule as C02.R2)", Run: c02r2},
 		},
 	})
